@@ -83,10 +83,15 @@ def poisson(S, M):
     return p
 
 
-def row_tail(d, m, N):
-    """t_m(N) = sum_{k >= N} |<m|D(d)|k>|^2 = 1 - sum_{k<N} |<m|D|k>|^2  (>= 0)."""
-    D = disp_matrix(d, max(N, m + 1))
-    return max(0.0, 1.0 - float(numpy.sum(numpy.abs(D[m, :N]) ** 2)))
+@lru_cache(maxsize=65536)
+def row_tail(d, m, N, extra=90):
+    """t_m(N) = sum_{k >= N} |<m|D(d)|k>|^2 (= 1 - sum_{k<N} |<m|D|k>|^2), summed directly
+    as a series of positive terms (no cancellation for tiny tails); the terms decay like
+    S^k/k!, `extra` terms are more than enough for S <= 10 and m <= 25."""
+    t = 0.0
+    for k in range(N, N + extra):
+        t += abs(disp_element(m, k, d)) ** 2
+    return float(t)
 
 
 def ground_energy_bound(S, N):
@@ -118,9 +123,10 @@ def molecule_spectrum(elenergies, modes):
     modes: list of dicts {"w": omega, "d": [shift per electronic state],
     "n": [levels per electronic state]}.
     Returns (per-state list of sorted eigenvalues of the truncated model,
-             per-state list of the sorted lowest exact ladder values,
-             per-state upper bound on the truncation excess of the lowest level)."""
-    trunc, exact, gbound = [], [], []
+             per-state list of the sorted lowest levels of the untruncated ladder,
+             per-state upper bound on the truncation excess of the lowest level,
+             per-state ladder E + sum (k_j+1/2) w_j restricted to k_j < N_j)."""
+    trunc, exact, gbound, box = [], [], [], []
     for e, en in enumerate(elenergies):
         ev = numpy.array([float(en)])
         ex = numpy.array([float(en)])
@@ -132,12 +138,13 @@ def molecule_spectrum(elenergies, modes):
             ex = numpy.add.outer(ex, w * (numpy.arange(N) + 0.5)).ravel()
             gb += w * ground_energy_bound(d * d / 2.0, N)
         trunc.append(numpy.sort(ev))
-        # the k-th lowest exact level of the full ladder is <= the k-th lowest value of
-        # any finite sub-box of it; the lowest prod(N) values of the box [0,N_j) bound
-        # them from above, the exact k-th lowest values (box large enough) are used here
+        # ladder restricted to the declared levels (what an UNdisplaced state must show)
+        box.append(numpy.sort(ex))
+        # the len(ev) lowest levels of the full (untruncated) ladder: lower bounds of the
+        # Ritz values of any truncation (min-max theorem)
         exact.append(_lowest_ladder(en, modes, e, len(ev)))
         gbound.append(gb)
-    return trunc, exact, gbound
+    return trunc, exact, gbound, box
 
 
 def _lowest_ladder(en, modes, e, count):
@@ -224,9 +231,17 @@ def fc_block(spec, ea, eb, sigma=1):
 
 
 def block_tails(spec, ea, eb):
-    """T_i = 1 - sum_b |FC[i,b]|^2 for every row of fc_block (independent of sigma)."""
-    B = fc_block(spec, ea, eb, 1)
-    return numpy.maximum(0.0, 1.0 - numpy.sum(numpy.abs(B) ** 2, axis=1))
+    """T_i = 1 - sum_b |FC[i,b]|^2 for every row of fc_block (C order of ea's vibrational
+    signatures; independent of sigma): 1 - prod_modes (1 - t_mode), evaluated without
+    cancellation."""
+    logs = numpy.zeros(1)
+    for i, mol in enumerate(spec["mols"]):
+        for md in mol["modes"]:
+            da, db = float(md["d"][ea[i]]), float(md["d"][eb[i]])
+            na, nb = int(md["n"][ea[i]]), int(md["n"][eb[i]])
+            t = numpy.array([min(row_tail(da - db, m, nb), 1.0 - 1e-300) for m in range(na)])
+            logs = numpy.add.outer(logs, numpy.log1p(-t)).ravel()
+    return -numpy.expm1(logs)
 
 
 def aggregate_reference(spec, elsigs, sigma=1):
